@@ -509,6 +509,19 @@ func (e *txEval) checkSafe(c *Ctx, liveness bool) {
 					continue
 				}
 				oh := e.hs[o.id]
+				restartBetween := false
+				for _, rt := range tr.restarts {
+					lo, hi := oh.firstBodyAt, h.firstBodyAt
+					if lo > hi {
+						lo, hi = hi, lo
+					}
+					if (rt > oh.firstBodyAt && rt < ts) || (rt > lo && rt < hi) {
+						restartBetween = true // the double-spend index is documented as non-persistent
+					}
+				}
+				if restartBetween {
+					continue
+				}
 				if oh.firstBodyAt >= 0 && oh.firstBodyAt < ts-time.Second && tr.readyThroughout(oh.firstBodyAt-200*time.Millisecond, oh.firstBodyAt+time.Second) && !e.minedBefore(o, ts) && !e.evictedBefore(o, ts+3*time.Second) {
 					c.Violate("safe-despite-conflict", "conflict-arrived-before-safe", "%s was reported safe at t=%v although conflicting %s had been received at t=%v", e.label(h.spec), ts, e.label(o), oh.firstBodyAt)
 				}
